@@ -115,6 +115,10 @@ func (c *ReplayCache) IsDuplicate(data []byte, tag string) bool {
 		c.current[signature] = tag
 	}
 	if existingTag, ok := c.previous[signature]; ok {
+		// The entry is refreshed into the current generation. Keep the tag it
+		// was first recorded with: adopting the tag of this sighting would let
+		// the next replay that carries the same tag pass as a retransmission.
+		c.current[signature] = existingTag
 		if existingTag == EmptyTag || tag == EmptyTag {
 			return true
 		}
